@@ -241,7 +241,7 @@ func resultSuite() hlib.Suite {
 								stats.Record(metrics.SuccessResult, int64(time.Millisecond)*int64(i+1))
 							}
 							for i := uint64(0); i < f; i++ {
-								stats.Record(metrics.FailedResult, int64(time.Millisecond))
+								stats.Record(metrics.FailedResult, int64(7*time.Millisecond)*int64(i+2)) // statistics unlike the successful ones
 							}
 							for i := uint64(0); i < d; i++ {
 								stats.Record(metrics.DroppedResult, 0)
@@ -266,6 +266,9 @@ func resultSuite() hlib.Suite {
 							sd := res.Summary().VerifData()
 							if sd.SuccessfulIterationCount != s || sd.FailedIterationCount != f || sd.DroppedIterationCount != d || sd.Iterations != s+f+d || sd.IterationsStarted != s+f {
 								r.Fail("C19/result-summary-data", "counts", fmt.Sprintf("%+v", sd), input)
+							}
+							if snapNow := res.Snapshot(); sd.SuccessfulIterationDurations != snapNow.SuccessfulIterationDurations || sd.FailedIterationDurations != snapNow.FailedIterationDurations {
+								r.Fail("C19/result-summary-data", "duration-statistics", fmt.Sprintf("summary data: successful %+v failed %+v; the result's snapshot: successful %+v failed %+v", sd.SuccessfulIterationDurations, sd.FailedIterationDurations, snapNow.SuccessfulIterationDurations, snapNow.FailedIterationDurations), input)
 							}
 							if sd.Failed != res.Failed() || (sd.Error != nil) != withErr {
 								r.Fail("C19/result-summary-data", "verdict", fmt.Sprintf("Failed=%v Error=%v", sd.Failed, sd.Error), input)
